@@ -298,6 +298,13 @@ func execNarrowJoinQueries(d *xdb, r *hx.Rng) {
 		}
 		d.query(fmt.Sprintf("SELECT * FROM %s %s %s ON %s.k = %s.k", l, jts[r.Intn(3)], rt, l, rt), "exact", "join-widths")
 	}
+	// an unqualified name that one table of the chain carries so far and the table joined next carries
+	// too: unique in the first ON condition, ambiguous in the second (n1: k; n2: k, b; n3: k, b, id)
+	for _, jt := range jts {
+		d.query("SELECT n3.id FROM n1 "+jt+" n2 ON b = n2.b "+jt+" n3 ON b = n3.b", "judged", "join-widths")
+		d.query("SELECT n3.id FROM n1 "+jt+" n2 ON b = n2.b "+jt+" n3 ON n2.b = n3.b", "exact", "join-widths")
+		d.query("SELECT n3.id FROM n2 "+jt+" n3 ON id >= 1 "+jt+" n5 ON id = n5.id", "judged", "join-widths")
+	}
 	for i := 0; i < 5; i++ {
 		a, b, c := names[r.Intn(4)], names[r.Intn(4)], names[r.Intn(4)]
 		if a == b || b == c || a == c {
@@ -613,7 +620,17 @@ func execJoinQueries(d *xdb, r *hx.Rng, t1, t2, t3 xtable) {
 	for i := 0; i < 14; i++ {
 		jt := jts[r.Intn(4)]
 		on := "t1.k = t2.k"
-		switch r.Intn(5) {
+		switch r.Intn(9) {
+		case 5:
+			// a conjunct that reads one side only: on the preserved side of an outer join the rows that
+			// fail it still come back, padded
+			on = fmt.Sprintf("t1.k = t2.k AND t1.a >= %d", r.Range(0, 3))
+		case 6:
+			on = fmt.Sprintf("t1.k = t2.k AND t2.a >= %d", r.Range(0, 3))
+		case 7:
+			on = fmt.Sprintf("t1.a >= %d AND t2.k = t1.k AND t2.c = true", r.Range(0, 3))
+		case 8:
+			on = fmt.Sprintf("t2.a >= %d", r.Range(0, 3))
 		case 0:
 			on = "t1.k = t2.k AND t1.a <= t2.a"
 		case 1:
